@@ -7,7 +7,6 @@ import registry
 
 NA = {
     "C19": "Both installed tools fail on the new-API codec: its parsers are written with slice patterns (`[0, ref rest @ ..]`), which Verus rejects, and a CBMC differential harness of the established and the new name parser on 4 symbolic octets does not finish in 20 min (256-octet name buffers, memcpy with symbolic sizes). One disagreement found by reading is demonstrated natively (replay_new/src/bin/d11_pointer_into_own_segment.rs: a pointer into its own segment is followed by the old parser and rejected by the new one) and described in DESIGN.md; no check is claimed.",
-    "C20": "The client cache is an async moka cache keyed by time (Instant::elapsed) and histories; Value::get_response compares core::time::Duration values (no Verus specification) and decrement_ttl/validity iterate generic section iterators. The panic-freedom of `ttl - amount` depends on a cross-function invariant (valid_for <= every TTL) that no single-function contract in reach expresses.",
     "C08": "RFC 1034/4592 answer function over lock-protected hash-map trees (Arc/RwLock/HashMap/dyn walkers) and update histories; no contract in reach of Verus or Kani expresses or decides it (DESIGN.md section 4, C08)",
 }
 HOOK_COMMITS = [l.split()[0] for l in __import__("subprocess").check_output(["git", "-C", "/repo", "log", "--format=%h %s", "--grep", "^verification hook"]).decode().splitlines()]
